@@ -38,7 +38,7 @@ theorem invF_init (cfg : Cfg) : InvF cfg (init cfg) := by
 
 theorem invF_step (cfg : Cfg) (s : St) (op : Op) (h : InvF cfg s) : InvF cfg (step cfg s op) := by
   obtain ⟨clock, prodDone, finTime, suicide, armed, consume, retries, cancel, kc, hasProc, procKilled,
-    lastLaunched, aged, hasOutput, lastOutput, outs, execLog, pc, cause, pollsFin, books⟩ := s
+    lastLaunched, aged, hasOutput, lastOutput, outs, execLog, pc, cause, pollsFin, books, started⟩ := s
   simp only [InvF] at h ⊢
   rcases op with e | o
   · cases e <;> simp only [step, envStep, doKill] <;> (repeat' split) <;>
